@@ -108,7 +108,10 @@ public:
 
   static constexpr uintptr_t RegionSize = uintptr_t(1) << RegionBits;
   static constexpr uintptr_t RegionMask = RegionSize - 1;
-  static constexpr unsigned MaxFuncs = 24;
+#ifndef VM_MAX_FUNCS
+#  define VM_MAX_FUNCS 24
+#endif
+  static constexpr unsigned MaxFuncs = VM_MAX_FUNCS;
   static constexpr unsigned TableSize = 1 + MaxFuncs + NSlots; // index 0 = null
   static constexpr unsigned SlotBase = 1 + MaxFuncs;
 
